@@ -16,9 +16,11 @@ const (
 	typeBash  string = "bash"
 )
 
-var convMapping = map[string]transpiler.Converter{
-	typeBatch: batch.New(),
-	typeBash:  bash.New(),
+// Converters accumulate the generated code, therefore every requested
+// target gets a converter of its own.
+var convMapping = map[string]func() transpiler.Converter{
+	typeBatch: func() transpiler.Converter { return batch.New() },
+	typeBash:  func() transpiler.Converter { return bash.New() },
 }
 
 type options struct {
@@ -58,12 +60,12 @@ func parseOptions() options {
 			}
 			options.out = cValue
 		case "-t", "--type":
-			conv, ok := convMapping[cValue]
+			newConv, ok := convMapping[cValue]
 
 			if !ok {
 				panic(fmt.Errorf("unknown converter type %s. Allowed types are %s", cValue, strings.Join(types, ", ")))
 			}
-			options.converters = append(options.converters, conv)
+			options.converters = append(options.converters, newConv())
 		default:
 			panic(fmt.Errorf("unknown option %s", cSwitch))
 		}
